@@ -138,6 +138,7 @@ func TestC19Cdi(t *testing.T) {
 		default:
 			cdi.SetSpecValidator(schema.BuiltinSchema())
 		}
+		waitForInotify()
 		lib, _ := cdi.NewCache(cdi.WithSpecDirs(dirs...))
 		defer lib.Configure(cdi.WithAutoRefresh(false))
 		undecidedIfNoInotify(t, lib)
